@@ -388,10 +388,34 @@ type xSigner struct {
 	vals  *valset // ... or a multi-signature set of the harness
 	scope transaction.WitnessScope
 	raw   *util.Uint160 // ... or a bare account without a usable witness (empty verification script)
+	// ... or a NON-standard verification script that returns true by itself (empty invocation script)
+	script []byte
+}
+
+// trueScript is a non-standard verification script: PUSH1 (price: one unit of the exec fee factor).
+var trueScript = []byte{byte(opcode.PUSH1)}
+
+const trueScriptCost = baseExecFee / 10000 // one price unit, in datoshi
+
+// witCost is the GAS the verification of this signer's witness consumes.
+func (x xSigner) witCost() int64 {
+	switch {
+	case x.acc != nil:
+		c, _ := fee.Calculate(baseExecFee, x.acc.acc.Contract.Script)
+		return c
+	case x.vals != nil:
+		c, _ := fee.Calculate(baseExecFee, x.vals.script)
+		return c
+	case x.script != nil:
+		return trueScriptCost
+	}
+	return 0
 }
 
 func (x xSigner) account() util.Uint160 {
 	switch {
+	case x.script != nil:
+		return hash.Hash160(x.script)
 	case x.acc != nil:
 		return x.acc.h
 	case x.vals != nil:
@@ -436,6 +460,8 @@ func (st *state) mkX(x xSpec) *transaction.Transaction {
 		case s.vals != nil:
 			c, sz := fee.Calculate(baseExecFee, s.vals.script)
 			nf, size = nf+c, size+sz
+		case s.script != nil:
+			nf, size = nf+trueScriptCost, size+1+1+len(s.script)
 		default:
 			size += 2 // two empty scripts
 		}
@@ -463,6 +489,8 @@ func (st *state) mkX(x xSpec) *transaction.Transaction {
 				VerificationScript: s.acc.acc.Contract.Script})
 		case s.vals != nil:
 			tx.Scripts = append(tx.Scripts, transaction.Witness{InvocationScript: s.vals.sign(tx, nil), VerificationScript: s.vals.script})
+		case s.script != nil:
+			tx.Scripts = append(tx.Scripts, transaction.Witness{VerificationScript: s.script})
 		default:
 			tx.Scripts = append(tx.Scripts, transaction.Witness{})
 		}
